@@ -334,7 +334,7 @@ impl Check for C18 {
             .boxed()
     }
     fn cases(&self, tier: Tier) -> u64 {
-        tier.pick(100_000, 5_000_000)
+        tier.pick(100_000, 20_000_000)
     }
     fn run(&self, case: &Case) -> (Verdict, CaseInfo) {
         let mut info = CaseInfo::default();
